@@ -23,6 +23,7 @@ type CoalesceCase struct {
 	StaggerMs []int   `json:"stagger_ms"` // start offsets of the callers (all within the first request)
 	Changed  []string `json:"changed"`   // names with a new version at the service
 	Ticker   bool     `json:"ticker"`    // one of the overlapping polls is the store's own background poll
+	CancelMs int      `json:"cancel_after"` // >0: the context of caller 0 (started first, alone) is cancelled right after the n-th request of the poll was answered, i.e. between two requests
 }
 
 func runCoalesce(t *testing.T, c CoalesceCase) (v *h.Violation, info h.Info) {
@@ -59,9 +60,21 @@ func runCoalesce(t *testing.T, c CoalesceCase) (v *h.Violation, info h.Info) {
 		done := make(chan int, c.Callers)
 		for i := 0; i < c.Callers; i++ {
 			go func() {
-				time.Sleep(time.Duration(c.StaggerMs[i%len(c.StaggerMs)]) * time.Millisecond)
+				if !(i == 0 && c.CancelMs > 0 && !c.Ticker) {
+					time.Sleep(time.Duration(c.StaggerMs[i%len(c.StaggerMs)])*time.Millisecond + 100*time.Microsecond)
+				}
 				if c.Ticker && i == 0 {
 					tick.Poll() // the background poller's own poll
+				} else if i == 0 && c.CancelMs > 0 {
+					ctx, cancel := context.WithCancel(context.Background())
+					svc.ResetCount()
+					svc.OnAnswered = func(n int, _ string) {
+						if n == c.CancelMs {
+							cancel()
+						}
+					}
+					errs[i] = st.Refresh(ctx)
+					cancel()
 				} else {
 					errs[i] = st.Refresh(context.Background())
 				}
@@ -76,11 +89,38 @@ func runCoalesce(t *testing.T, c CoalesceCase) (v *h.Violation, info h.Info) {
 		for _, r := range reqs {
 			per[r.Name]++
 		}
+		cancelled := c.CancelMs > 0 && !c.Ticker
+		okCallers := 0
 		for i, e := range errs {
-			if e != nil {
+			if e != nil && !cancelled {
 				v = h.V("overlapping-refreshes-coalesce", "Refresh %d failed: %v", i, e)
 				return
 			}
+			if e == nil && !(c.Ticker && i == 0) {
+				okCallers++
+			}
+		}
+		if cancelled {
+			// the flight's starter was cancelled mid-poll: joiners may fail, but a Refresh that
+			// returned nil promises fresh values for every known secret
+			info.Class("starter-cancelled-mid-poll")
+			if okCallers > 0 {
+				for n := range uniq {
+					want := uint32(1)
+					for _, ch := range c.Changed {
+						if ch == n {
+							want = 2
+						}
+					}
+					if got := string(st.Secret(n).Get()); got != string(valueOf(n, want)) {
+						v = h.V("fresh-after-successful-poll", "a Refresh coalesced onto a poll whose starter was cancelled returned nil, yet %q yields %q (service has version %d)", n, got, want)
+						return
+					}
+				}
+				info.Class("joiner-succeeded-after-starter-cancelled")
+			}
+			info.NonTrivial = true
+			return
 		}
 		for n := range uniq {
 			if per[n] != 1 {
@@ -120,6 +160,7 @@ var c11coalesce = &h.Campaign[CoalesceCase]{
 			StaggerMs: rapid.SliceOfN(rapid.IntRange(0, d-1), 1, 6).Draw(rt, "stagger"),
 			Changed:   rapid.SliceOfN(rapid.SampledFrom([]string{"a", "b", "c", "d"}), 0, 3).Draw(rt, "changed"),
 			Ticker:    rapid.Bool().Draw(rt, "ticker"),
+			CancelMs:  rapid.SampledFrom([]int{0, 0, 0, 1, 1, 2}).Draw(rt, "cancelafter"),
 		}
 	},
 	Run: runCoalesce,
